@@ -7,7 +7,7 @@
    Only statements + `exact` of lemmas proved in Types/GenericProofs.v. *)
 From Coq Require Import List NArith Bool.
 Import ListNotations.
-From DDP Require Import Types.Ty Types.TyProofs Types.Generic Types.GenericProofs.
+From DDP Require Import Types.Ty Types.TyProofs Types.Generic Types.GenericProofs Types.GenericFun Types.GenericFunProofs.
 Open Scope N_scope.
 
 (* FRAGMENT: parameter types built from list-of, type parameters and closed non-Kombination types
@@ -76,11 +76,65 @@ Proof. split; [apply inv_len_gstate0| exact unify_other_generic_is_nil]. Qed.
    type arguments different types"). *)
 Theorem C15_inst_canonical :
   forall arity st reqs1 g1 a1 s1 st1 reqs2 g2 a2 s2 st2,
-    inv st ->
+    GenericProofs.inv st ->
     get_inst arity (state_after arity st reqs1) g1 a1 = (Some s1, st1) ->
     get_inst arity (state_after arity st1 reqs2) g2 a2 = (Some s2, st2) ->
     (s1 = s2 <-> g1 = g2 /\ args_equal a1 a2 = true).
 Proof. exact inst_canonical. Qed.
 Print Assumptions C15_inst_canonical.
-Example C15_inst_canonical_nonvacuous : forall k, inv (gstate0 k).
+Example C15_inst_canonical_nonvacuous : forall k, GenericProofs.inv (gstate0 k).
 Proof. exact inv_gstate0. Qed.
+
+(* ---- the per-module cache of generic FUNCTION instantiations (model Types/GenericFun.v of
+   parser.InstantiateGenericFunction) ------------------------------------------------------------------------ *)
+
+(* ALL functions (extern or not), ALL histories of requests and body failures from the empty cache: the same
+   instantiation is only ever returned for the same generic function, the same key module (the requesting
+   module; the declaring module for extern functions) and pointwise-equal parameter types. *)
+Theorem C15_fun_inst_sound :
+  forall is_extern decl_mod evs1 f1 g1 p1 ps1 r1 s1 evs2 f2 g2 p2 ps2 r2 s2 i,
+    fstep is_extern decl_mod (frun is_extern decl_mod fstate0 evs1) (EReq f1 g1 p1 ps1) = (r1, s1) -> result_id r1 = Some i ->
+    fstep is_extern decl_mod (frun is_extern decl_mod s1 evs2) (EReq f2 g2 p2 ps2) = (r2, s2) -> result_id r2 = Some i ->
+    f1 = f2 /\ key_mod is_extern decl_mod f1 g1 p1 = key_mod is_extern decl_mod f2 g2 p2 /\ params_equal ps1 ps2 = true.
+Proof. exact fun_inst_sound. Qed.
+Print Assumptions C15_fun_inst_sound.
+
+(* NON-EXTERN functions, all histories: two requests return the same instantiation IFF same generic function,
+   same requesting module and pointwise-equal parameter types — provided the body of the first instantiation
+   did not fail in between (a failed instantiation is removed, see below). *)
+Theorem C15_fun_inst_canonical :
+  forall is_extern decl_mod evs1 f1 g1 p1 ps1 r1 s1 i1 evs2 f2 g2 p2 ps2 r2 s2 i2,
+    is_extern f1 = false ->
+    fstep is_extern decl_mod (frun is_extern decl_mod fstate0 evs1) (EReq f1 g1 p1 ps1) = (r1, s1) -> result_id r1 = Some i1 ->
+    no_fail i1 evs2 = true ->
+    fstep is_extern decl_mod (frun is_extern decl_mod s1 evs2) (EReq f2 g2 p2 ps2) = (r2, s2) -> result_id r2 = Some i2 ->
+    (i1 = i2 <-> f1 = f2 /\ key_mod is_extern decl_mod f1 g1 p1 = key_mod is_extern decl_mod f2 g2 p2 /\ params_equal ps1 ps2 = true).
+Proof. exact fun_inst_canonical. Qed.
+Print Assumptions C15_fun_inst_canonical.
+Example C15_fun_inst_canonical_nonvacuous :
+  let ie := fun _ : N => false in let dm := fun _ : N => 1 in
+  let s1 := snd (fstep ie dm fstate0 (EReq 5 None 2 [(Prim PZahl, false)])) in
+  fst (fstep ie dm fstate0 (EReq 5 None 2 [(Prim PZahl, false)])) = New 0 /\
+  fst (fstep ie dm s1 (EReq 5 None 2 [(Alias 9 (Prim PZahl), false)])) = Hit 0 /\      (* equal through an alias: same instantiation *)
+  fst (fstep ie dm s1 (EReq 5 None 3 [(Prim PZahl, false)])) = New 1 /\                (* another requesting module: another one *)
+  fst (fstep ie dm s1 (EReq 5 None 2 [(Prim PZahl, true)])) = New 1.                   (* Referenz differs: another one *)
+Proof. vm_compute. repeat split; reflexivity. Qed.
+
+(* a failed instantiation leaves no entry *)
+Theorem C15_fun_failed_leaves_no_entry :
+  forall is_extern decl_mod st id e, In e (fins (snd (fstep is_extern decl_mod st (EFail id)))) -> fe_id e <> id.
+Proof. exact failed_leaves_no_entry. Qed.
+Print Assumptions C15_fun_failed_leaves_no_entry.
+
+(* EXTERN generic functions requested from a module other than the declaring one: the "if" direction FAILS on the
+   pinned tree — `Instantiations[genericModule] = append(Instantiations[p.module], &decl)` resets the slice of the
+   declaring module, so the same instantiation is made again (observable only as duplicated declarations). *)
+Theorem C15_fun_inst_extern_refuted :
+  exists is_extern decl_mod f pmod a b,
+    is_extern f = true /\ pmod <> decl_mod f /\
+    let ev x := EReq f None pmod [(x, false)] in
+    let s1 := snd (fstep is_extern decl_mod fstate0 (ev a)) in
+    let s2 := snd (fstep is_extern decl_mod s1 (ev b)) in
+    fst (fstep is_extern decl_mod fstate0 (ev a)) = New 0 /\ fst (fstep is_extern decl_mod s2 (ev a)) = New 2.
+Proof. exact fun_inst_extern_refuted. Qed.
+Print Assumptions C15_fun_inst_extern_refuted.
